@@ -64,3 +64,63 @@ def shard(ctx: Ctx) -> None:
         ctx.res.notes.setdefault("S_unswept_methods", []).extend(o["unswept"])
         ctx.res.count("S/methods_swept", len(o["methods"]))
         check_batches(ctx, framing, o)
+    backpressure(ctx)
+
+
+def backpressure(ctx: Ctx) -> None:
+    """The device stops reading for a while (socket buffer full): the transport queues what the client writes - in 3.12 as memoryviews of the
+    very objects it was given - and flushes when the device reads again.  What the device then decodes is still exactly what was sent."""
+    import base64
+
+    from aioesphomeapi import api_pb2 as pb
+    from vf.sim.device import DeviceConfig
+    from vf.sim.scenario import Sim
+
+    res = ctx.res
+    psk = bytes(range(5, 37))
+    for j, (framing, n_cmds, chunk) in enumerate((("plain", 40, 700), ("noise", 40, 700), ("noise", 200, 90), ("plain", 12, 30000), ("noise", 12, 30000))):
+        if not ctx.mine(100 + j):
+            continue
+        with Sim() as sim:
+            cfg = DeviceConfig(noise_psk=psk if framing == "noise" else None)
+            dev = sim.device(cfg)
+            cli = sim.client(keepalive=1e5, **({"noise_psk": base64.b64encode(psk).decode()} if framing == "noise" else {}))
+            c0 = sim.call("connect", lambda: cli.connect(login=False))
+            sim.run(until=lambda: c0.done, max_time=sim.clock + 50)
+            if c0.outcome != "ok":
+                res.inconclusive.append(f"C02 back-pressure: connect failed {c0.exc!r}")
+                continue
+            dconn = dev.conn
+            n0 = len(dconn.received)
+            dconn.sock.send_fault = "block"
+            sent: list[tuple[str, bytes]] = []
+            for k in range(n_cmds):
+                if k % 3 == 0:
+                    data = bytes((k * 7 + i) % 251 for i in range(chunk + k))
+                    cli.send_voice_assistant_audio(data)
+                    sent.append(("VoiceAssistantAudio", pb.VoiceAssistantAudio(data=data).SerializeToString()))
+                elif k % 3 == 1:
+                    cli.switch_command(k, bool(k % 2))
+                    sent.append(("SwitchCommandRequest", pb.SwitchCommandRequest(key=k, state=bool(k % 2)).SerializeToString()))
+                else:
+                    cli.text_command(k, "t" * (k % 50))
+                    sent.append(("TextCommandRequest", pb.TextCommandRequest(key=k, state="t" * (k % 50)).SerializeToString()))
+                if k % 5 == 0:
+                    sim.run_for(0.001)
+            sim.run_for(0.05)
+            got_while_blocked = len(dconn.received) - n0
+            dconn.sock.send_fault = None
+            sim.run_for(0.5)
+            got = [(r["name"], r["payload"]) for r in dconn.received[n0:]]
+            res.evaluations += 1
+            res.count(f"S/back-pressure/{framing}")
+            res.count("S/back-pressure/messages_queued_while_device_not_reading", len(sent) - got_while_blocked)
+            res.sig("S-bp", framing, n_cmds, chunk)
+            case = {"framing": framing, "part": "S", "batch": [], "back_pressure": {"commands": n_cmds, "audio_chunk": chunk}}
+            if dconn.decode_errors:
+                res.violation("C02/S/device-decode-error", f"after the device resumed reading: {dconn.decode_errors[:2]}", case, trace=sim.trace(30))
+            elif got != sent:
+                first = next((i for i, (a, b) in enumerate(zip(got, sent)) if a != b), min(len(got), len(sent)))
+                res.violation("C02/S/mismatch", f"device resumed reading: decoded {len(got)} messages, {len(sent)} were sent; first difference at #{first}", case, trace=sim.trace(30))
+            else:
+                res.count("S/frames_decoded_equal", len(sent))
